@@ -272,6 +272,17 @@ func runC06(p *core.Prog, r *core.Report) {
 						return
 					}
 					recv := c.Common().Value
+					// Start inside a helper that receives the task: judge the argument at the helper's call site in the worker
+					if prm, ok := sx.Unspill(recv).(*ssa.Parameter); ok && f != t.Worker {
+						for _, cs := range staticCalls(p).callers[f] {
+							args := sx.Args(cs.Instr)
+							for i, fp := range f.Params {
+								if fp == prm && i < len(args) && rootFn(cs.Caller) == t.Worker {
+									recv = args[i]
+								}
+							}
+						}
+					}
 					if receivedInLoop(t, recv, hdr, "blocking|shared") {
 						return
 					}
@@ -315,7 +326,7 @@ func runC06(p *core.Prog, r *core.Report) {
 				if !ok || !t.isStart(c) {
 					return
 				}
-				if _, isGo := c.(*ssa.Go); isGo || !wreach[fn] {
+				if _, isGo := c.(*ssa.Go); isGo || !wreach[fn] || !onlyCalledFrom(p, fn, map[*ssa.Function]bool{t.Worker: true}) {
 					okWho = false
 					where = append(where, fnName(fn)+" at "+p.Pos(in.Pos()))
 				}
@@ -339,6 +350,18 @@ func runC06(p *core.Prog, r *core.Report) {
 func receivedInLoop(t *tlInfo, v ssa.Value, hdr *ssa.BasicBlock, roles string) bool {
 	v = sx.Unspill(v)
 	switch x := v.(type) {
+	case *ssa.Phi:
+		// merged from several receive arms: every incoming value must be a fresh receive of this iteration
+		// (a phi at the loop header would carry a value over from the previous iteration)
+		if x.Block() == hdr || len(x.Edges) == 0 {
+			return false
+		}
+		for _, e := range x.Edges {
+			if !receivedInLoop(t, e, hdr, roles) {
+				return false
+			}
+		}
+		return true
 	case *ssa.Extract:
 		sel, ok := x.Tuple.(*ssa.Select)
 		if !ok || !hdr.Dominates(sel.Block()) {
